@@ -332,6 +332,34 @@ func c08Check[E zzverif.Scalar](v *zzverif.T) {
 				stepped = true
 			}
 		}
+		if stepped && len(r.Outs) > 0 && r.Outs[0] != nil {
+			// stated BEFORE the region of the listed finding (how the library's strided views clamp and round is
+			// recorded there): whatever a step other than 1 selects, it is at most every |step|-th position of
+			// its axis - a step that is dropped on the way is not covered by the finding
+			bound := 1
+			for k := 0; k < rank; k++ {
+				e := shape[k]
+				for i := 0; i < n; i++ {
+					ai := axes[i]
+					if ai < 0 {
+						ai += rank
+					}
+					if ai == k {
+						st := steps[i]
+						if st < 0 {
+							st = -st
+						}
+						e = (shape[k] + st - 1) / st
+					}
+				}
+				bound *= e
+			}
+			got := 1
+			for _, d := range r.Outs[0].Shape() {
+				got *= d
+			}
+			v.Assert("C08.a-step-thins-the-selection", got <= bound)
+		}
 		v.Region("C08.slice-drops-axis-of-extent-1", dropsUnit)
 		v.Region("C08.slice-step-not-1", stepped)
 		want := make([]E, zzverif.Prod(outShape))
